@@ -3,6 +3,7 @@ package remote
 import (
 	"context"
 	"errors"
+	"fmt"
 	"log/slog"
 
 	"github.com/anthdm/hollywood/actor"
@@ -36,6 +37,14 @@ func (r *streamReader) Receive(stream DRPCRemote_ReceiveStream) error {
 		}
 
 		for _, msg := range envelope.Messages {
+			// Indices come from the peer: never index a table with them unchecked.
+			if msg.TypeNameIndex < 0 || int(msg.TypeNameIndex) >= len(envelope.TypeNames) ||
+				msg.TargetIndex < 0 || int(msg.TargetIndex) >= len(envelope.Targets) {
+				err := fmt.Errorf("envelope index out of range (type %d of %d, target %d of %d)",
+					msg.TypeNameIndex, len(envelope.TypeNames), msg.TargetIndex, len(envelope.Targets))
+				slog.Error("streamReader receive", "err", err)
+				return err
+			}
 			tname := envelope.TypeNames[msg.TypeNameIndex]
 			payload, err := r.deserializer.Deserialize(msg.Data, tname)
 
